@@ -27,6 +27,9 @@ QUICK = ["kundur/kundur_full.json", "kundur/kundur_exdc2_zero_tb.xlsx", "ieee14/
          "ieee14/ieee14_fault.json", "kundur/kundur_aw.json"]
 
 
+ALTER_QUICK = ["kundur/kundur_full.json", "ieee14/ieee14_solar.xlsx", "kundur/kundur_exdc2_zero_tb.xlsx", "ieee14/ieee14_full.xlsx"]
+
+
 def run(tier):
     rep = Report(PID, tier)
     quick = tier == "quick"
@@ -59,14 +62,15 @@ def run(tier):
         rr.pop("raised_text", None)
         traces.append(dict(meta=dict(tid=k + 1, sid="lattice%d" % rec["id"]), ev=[rr]))
     stock = QUICK if quick else [c for c in stock_cases()]
-    sres = run_tasks("vh.eigdrv:stock_case", [dict(case=c) for c in stock], nproc=NCPU, timeout=900)
+    stasks = [dict(case=c) for c in stock] + [dict(case=c, alter=True) for c in (ALTER_QUICK if quick else stock)]
+    sres = run_tasks("vh.eigdrv:stock_case", stasks, nproc=NCPU, timeout=900)
     srecs = []
-    for c, x in zip(stock, sres):
+    for c, x in zip([t["case"] + ("|after alter" if t.get("alter") else "") for t in stasks], sres):
         if x["status"] == "ok" and "skipped" not in x["result"]:
             r_ = x["result"]
             srecs.append(r_)
             traces.append(dict(meta=dict(tid=len(traces) + 1, sid="stock:" + c),
-                               ev=[dict(raised=False, shape_ok=r_["shape_ok"], as_ok=r_["as_ok"], count_ok=r_["count_ok"],
+                               ev=[dict(raised=False, shape_ok=r_["shape_ok"], as_ok=r_["as_ok"] and r_["tf_current"], count_ok=r_["count_ok"],
                                         roots_ok=r_["eig_ok"], names_ok=r_["names_ok"], counts_partition=r_["counts_partition"],
                                         counts_ok=r_["counts_ok"], pf_nonneg=r_["pf_nonneg"], pf_sum_ok=r_["pf_sum_ok"],
                                         pf_argmax_ok=True, id=-1)]))
@@ -100,6 +104,7 @@ def run(tier):
                           replay=dict(record=tr["ev"][0], case=(cases[tr["ev"][0]["id"]] if sid.startswith("lattice") else sid)))
     rep.extra["lattice_cases"] = len(cases)
     rep.extra["zero_T_positions"] = sorted({json.dumps(c["zero"]) for c in cases})
+    rep.extra["time_constants_altered_before_reanalysis"] = sorted({a for r_ in srecs for a in r_.get("altered", [])})
     rep.extra["stock_cases_with_zero_T"] = [r_["case"] for r_ in srecs if r_.get("nzero_T")]
     rep.sample(dict(lattice_case=cases[3]))
     rep.exhaustive = True
